@@ -25,7 +25,22 @@ def classify_warning(w):
         return "W:seq"
     if "did not match the length of data available" in m:
         return "W:len"
+    # a warning of the packet generator whose wording is not one of the three above (the wording is no property's
+    # subject): it is counted, in its place, as a warning of unknown kind
+    import os
+    if issubclass(w.category, UserWarning) and os.path.basename(w.filename or "") == "definitions.py":
+        return "W:?"
     return None      # other warnings (e.g. the 'nonsensical' comparison note) are not part of any property
+
+
+def same_events(mo, io):
+    """Model and implementation responses agree, `W:?` standing for a warning of any kind."""
+    if mo == io:
+        return True
+    if "W:?" not in io:
+        return False
+    a, b = mo.split(" "), io.split(" ")
+    return len(a) == len(b) and all(x == y or (y == "W:?" and x.startswith("W:")) for x, y in zip(a, b))
 
 
 def opts_kw(o):
